@@ -53,6 +53,21 @@ def scenarios(uni, tier):
         add("conflict with the copy name taken", t2(1, 0, {(1, (1, 0)): 2}), t2(2, 0, {(1, (1, 0)): 2}), True, t2(0, 0, {(1, (1, 0)): 2}), t2(0, 0, {(1, (1, 0)): 2}))
         add("delete both ways + create", t2(0, 2), t2(1, 0), True, t2(1, 2), t2(1, 2), second_gen=True)
         add("propagate both ways", t2(2, 1), t2(1, 2), True, t2(1, 1), t2(1, 1))
+    # every (A, B, archive) over the two base paths and two contents: 9 x 9 x (untrusted + 9 trusted) = 810 instances.
+    # thorough runs them all, quick a seeded share.
+    import itertools
+    import random
+    enum = []
+    trees = list(itertools.product((0, 1, 2), repeat=2))
+    for a in trees:
+        for b in trees:
+            for e in [None] + trees:
+                enum.append((a, b, e))
+    if tier != "thorough":
+        enum = random.Random(vlib.seed()).sample(enum, 60)
+    for a, b, e in enum:
+        ee = t2(*e) if e is not None else z
+        add(f"enumerated A={a} B={b} archive={e if e is not None else 'none'}", t2(*a), t2(*b), e is not None, ee, ee)
     return S
 
 
